@@ -9473,6 +9473,9 @@ class SVG(Group):
                         raise e
                     elif on_error == "stop":
                         return root
+                    if root is None and SVG_NAME_TAG == tag:
+                        # The outermost svg itself: nothing of the document is rendered, it is still a document.
+                        return SVG()
                     continue
                 # If no root was established, s is root.
                 if root is None:
